@@ -1,5 +1,451 @@
 import Driver.Proto
+import TonicModel.Model.Metadata
+import TonicModel.Spec.Metadata
+import TonicModel.Spec.Status
+import TonicModel.Basic.HMap
 namespace DriverC08
-/-- stub: property not yet claimed -/
-def handle (_case _obs : List String) : String × String := ("unclaimed", "fail:unclaimed")
+open Proto Metadata
+open Status (Variant St Code)
+
+def join (ts : List String) : String := String.intercalate " " ts
+
+/-! ### token forms -/
+
+def encOfTok : String → Option Enc
+  | "A" => some .ascii
+  | "B" => some .binary
+  | _ => none
+
+def tokOfEnc : Enc → String
+  | .ascii => "A"
+  | .binary => "B"
+
+/-- `<n> (A|B <key> <value>)*` -/
+def parseTypedN : Nat → List String → Option (List (Enc × Bytes × Bytes) × List String)
+  | 0, rest => some ([], rest)
+  | n + 1, e :: k :: v :: rest =>
+    match encOfTok e, unhex k, unhex v, parseTypedN n rest with
+    | some e, some k, some v, some (es, r) => some ((e, k, v) :: es, r)
+    | _, _, _, _ => none
+  | _ + 1, _ => none
+
+def parseTyped : List String → Option (List (Enc × Bytes × Bytes) × List String)
+  | n :: rest => (nat? n).bind (fun n => parseTypedN n rest)
+  | [] => none
+
+/-- a row of a typed view: category, stored name, decoded bytes (`none` = undecodable, `!`) -/
+abbrev Row := Enc × Bytes × Option Bytes
+
+def optHex : Option Bytes → String
+  | some b => hex b
+  | none => "none"
+
+def renderRows (rows : List Row) : List String :=
+  let sorted := rows.mergeSort (fun a b => HMap.bytesLe a.2.1 b.2.1)
+  toString sorted.length :: sorted.flatMap (fun r =>
+    [tokOfEnc r.1, hex r.2.1, match r.2.2 with | some b => hex b | none => "!"])
+
+def parseRowsN : Nat → List String → Option (List Row × List String)
+  | 0, rest => some ([], rest)
+  | n + 1, e :: k :: v :: rest =>
+    match encOfTok e, unhex k, parseRowsN n rest with
+    | some e, some k, some (rs, r) =>
+      if v == "!" then some ((e, k, none) :: rs, r)
+      else match unhex v with
+        | some v => some ((e, k, some v) :: rs, r)
+        | none => none
+    | _, _, _ => none
+  | _ + 1, _ => none
+
+def parseRows : List String → Option (List Row × List String)
+  | n :: rest => (nat? n).bind (fun n => parseRowsN n rest)
+  | [] => none
+
+def renderSt (v : Variant) (st : St) : List String :=
+  toString st.code.num :: hex st.message :: hex st.details :: renderRows (typedView v st.metadata)
+
+/-! ### spec-side expectations (written against Spec/ and Basic/ only) -/
+
+/-- the typed entries a caller attached that the API accepts, under their normalised names:
+key is a header name whose suffix matches the encoding, ASCII values are legal header values -/
+def specAccepted (es : List (Enc × Bytes × Bytes)) : List Row :=
+  es.filterMap (fun e =>
+    match HMap.normName e.2.1 with
+    | none => none
+    | some n =>
+      if (e.1 == Enc.binary) != Spec.Metadata.isBinName n then none
+      else if e.1 == Enc.ascii && !HMap.legalValue e.2.2 then none
+      else some (e.1, n, some e.2.2))
+
+def nonReserved (rows : List Row) : List Row :=
+  rows.filter (fun r => !Spec.Metadata.reserved.contains r.2.1)
+
+def nonProtocol (rows : List Row) : List Row :=
+  rows.filter (fun r => !Spec.Status.protocolNames.contains r.2.1)
+
+def sameRows (a b : List Row) : Bool := renderRows a == renderRows b
+
+def specView (m : HMap) : List Row :=
+  m.map (fun e =>
+    if Spec.Metadata.isBinName e.1 then (Enc.binary, e.1, B64.decode e.2) else (Enc.ascii, e.1, some e.2))
+
+def CT : Bytes := HMap.name "content-type"
+def APP_GRPC : Bytes := HMap.name "application/grpc"
+
+/-- what the protocol itself puts under the reserved names of a request -/
+def requestOwn : HMap := [(HMap.name "te", HMap.name "trailers"), (CT, APP_GRPC)]
+def responseOwn : HMap := [(CT, APP_GRPC)]
+
+/-! ### observed-output sectioning -/
+
+def splitOn1 (marker : String) (toks : List String) : Option (List String × List String) :=
+  let pre := toks.takeWhile (· != marker)
+  let post := toks.dropWhile (· != marker)
+  match post with
+  | _ :: rest => some (pre, rest)
+  | [] => none
+
+def handleAcc (h : HMap) (ks : Bytes) (obs : List String) : String × String :=
+  let v := Variant.fixed
+  let showAll (l : List Bytes) : List String := toString l.length :: l.map hex
+  let rmA := remove v .ascii ks h
+  let rmB := remove v .binary ks h
+  let model :=
+    ["get", optHex (get v .ascii ks h), "getbin", optHex (get v .binary ks h), "all"] ++ showAll (getAll v .ascii ks h)
+    ++ ["allbin"] ++ showAll (getAll v .binary ks h) ++ ["has", if containsKey ks h then "1" else "0"]
+    ++ ["rm", optHex rmA.1] ++ HMap.render rmA.2 ++ ["rmbin", optHex rmB.1] ++ HMap.render rmB.2
+    ++ ["mut", optHex (get v .ascii ks h), optHex (get v .binary ks h)]
+  -- spec: the stored (normalised) name decides the category
+  let n? := HMap.normName ks
+  let asc : Bool := match n? with | some n => !Spec.Metadata.isBinName n | none => false
+  let bin : Bool := match n? with | some n => Spec.Metadata.isBinName n | none => false
+  let vals : List Bytes := match n? with | some n => HMap.getAll n h | none => []
+  let after : HMap := match n? with | some n => HMap.remove n h | none => h
+  let expected :=
+    ["get", optHex (if asc then vals.head? else none), "getbin", optHex (if bin then vals.head? else none), "all"]
+    ++ showAll (if asc then vals else []) ++ ["allbin"] ++ showAll (if bin then vals else [])
+    ++ ["has", if vals.isEmpty then "0" else "1"]
+    ++ ["rm", optHex (if asc then vals.head? else none)] ++ HMap.render (if asc then after else h)
+    ++ ["rmbin", optHex (if bin then vals.head? else none)] ++ HMap.render (if bin then after else h)
+    ++ ["mut", optHex (if asc then vals.head? else none), optHex (if bin then vals.head? else none)]
+  -- name the clause by the first differing accessor
+  let clause : String :=
+    let rec firstDiff : List String → List String → String → String
+      | a :: as, b :: bs, cur =>
+        let cur := if ["get", "getbin", "all", "allbin", "has", "rm", "rmbin", "mut"].contains b then b else cur
+        if a == b then firstDiff as bs cur else cur
+      | _, _, cur => cur
+    firstDiff obs expected "shape"
+  (join model, verdict [("accessor-presents-only-its-own-category:" ++ clause, obs == expected)])
+
+def renderIter (rows : List (Enc × Bytes × Bytes)) : List String :=
+  let sorted := rows.mergeSort (fun a b => HMap.bytesLe a.2.1 b.2.1)
+  toString sorted.length :: sorted.flatMap (fun r => [tokOfEnc r.1, hex r.2.1, hex r.2.2])
+
+def iterOutput (rows : List (Enc × Bytes × Bytes)) : List String :=
+  let sorted := rows.mergeSort (fun a b => HMap.bytesLe a.2.1 b.2.1)
+  let keys := (sorted.map (fun r => (r.1, r.2.1))).eraseDups
+  renderIter rows ++ ["keys", toString keys.length] ++ keys.flatMap (fun k => [tokOfEnc k.1, hex k.2])
+  ++ ["values", toString sorted.length] ++ sorted.flatMap (fun r => [tokOfEnc r.1, hex r.2.2]) ++ ["mut-agrees", "1"]
+
+structure E2EOut where
+  reqwire : HMap
+  srv : List Row
+  respwire : List String
+  client : List String
+
+def handleE2E (mode : String) (code : Nat) (msg det : Bytes) (req resp stmd : List (Enc × Bytes × Bytes))
+    (obs : List String) : String × String :=
+  let v := Variant.fixed
+  let reqmd := buildTyped v req
+  let respmd := buildTyped v resp
+  let st : St := { code := Code.ofNum code, message := msg, details := det, metadata := buildTyped v stmd }
+  let reqwire := requestWire reqmd
+  let srv := typedView v reqwire
+  let (respwire, client) : List String × List String :=
+    if mode == "ok" then
+      (HMap.render (responseWire respmd), "ok" :: renderRows (typedView v (clientUnaryMetadata respmd)))
+    else if mode == "err" then
+      match errorResponseWire v st with
+      | .error e => (["enc-err"], "err" :: renderSt v e)
+      | .ok h =>
+        (HMap.render h, match Status.fromHeaderMap v h with
+          | some (.status s) => "err" :: renderSt v s
+          | some .panic => ["panic"]
+          | none => ["no-status"])
+    else if mode == "umix" then
+      let h := responseWire respmd
+      let cl := match Status.toHeaderMap v st with
+        | .error e => "err" :: renderSt v e
+        | .ok t => match Status.streamEnd v [t] 200 with
+          | .err s => "err" :: renderSt v { s with metadata := HMap.extend s.metadata h }
+          | .finished _ => ["unmodelled"]
+          | .panic => ["panic"]
+      (HMap.render h, cl)
+    else
+      let h := responseWire respmd
+      let tail := match Status.toHeaderMap v st with
+        | .error e => "err" :: renderSt v e
+        | .ok t => match Status.streamEnd v [t] 200 with
+          | .finished (some t) => "end" :: "some" :: renderRows (typedView v t)
+          | .finished none => ["end", "none"]
+          | .err s => "err" :: renderSt v s
+          | .panic => ["panic"]
+      (HMap.render h, ("ok" :: renderRows (typedView v h)) ++ ("then" :: tail))
+  let model := ("reqwire" :: HMap.render reqwire) ++ ("srv" :: renderRows srv) ++ ("respwire" :: respwire) ++ ("client" :: client)
+  -- spec verdict on the observed output
+  let sentReq := nonReserved (specAccepted req)
+  let sentResp := nonReserved (specAccepted resp)
+  let sentSt := nonProtocol (specAccepted stmd)
+  let verdictClauses : List (String × Bool) :=
+    match splitOn1 "reqwire" obs with
+    | some (_, r0) =>
+      match splitOn1 "srv" r0 with
+      | some (reqwireT, r1) =>
+        match splitOn1 "respwire" r1 with
+        | some (srvT, r2) =>
+          match splitOn1 "client" r2 with
+          | some (respwireT, clientT) =>
+            match HMap.parseRendered reqwireT, parseRows srvT, HMap.parseRendered respwireT with
+            | some (rw, []), some (srvRows, []), some (pw, []) =>
+              let common :=
+                [("request-reserved-names-only-from-protocol", Spec.Metadata.reservedOnlyFromProtocol rw requestOwn),
+                 ("request-wire-carries-custom-entries", sameRows (nonReserved (specView rw)) sentReq),
+                 ("server-sees-request-metadata", sameRows (nonReserved srvRows) sentReq)]
+              let respReserved (own : HMap) := ("response-reserved-names-only-from-protocol", Spec.Metadata.reservedOnlyFromProtocol pw own)
+              if mode == "ok" then
+                match clientT with
+                | "ok" :: rows =>
+                  match parseRows rows with
+                  | some (cr, []) =>
+                    common ++ [respReserved responseOwn,
+                      ("response-wire-carries-custom-entries", sameRows (nonReserved (specView pw)) sentResp),
+                      ("client-sees-response-metadata", sameRows (nonReserved cr) sentResp)]
+                  | _ => [("observed-parses", false)]
+                | _ => common ++ [("successful-call-succeeds", false)]
+              else if mode == "err" then
+                let own : HMap := [(CT, APP_GRPC), (HMap.name "grpc-status", decimal code)]
+                  ++ (if msg.isEmpty then [] else (HMap.getAll (HMap.name "grpc-message") pw).map (fun w => (HMap.name "grpc-message", w)))
+                match clientT with
+                | "err" :: c :: m :: d :: rows =>
+                  match parseRows rows with
+                  | some (cr, []) =>
+                    common ++ [respReserved own,
+                      ("status-message-on-wire-decodes", msg.isEmpty || (HMap.getAll (HMap.name "grpc-message") pw).map Pct.decode == [msg]),
+                      ("client-sees-status", c == toString code && m == hex msg && d == hex det),
+                      ("client-sees-status-metadata", sameRows (nonProtocol cr) sentSt)]
+                  | _ => [("observed-parses", false)]
+                | _ => common ++ [("failed-call-fails", false)]
+              else if mode == "umix" then
+                match clientT with
+                | "err" :: c :: m :: d :: rows =>
+                  match parseRows rows with
+                  | some (cr, []) =>
+                    -- names present both in the response headers and in the status trailers are
+                    -- merged by replacement (headers win); the clause speaks about the others
+                    let respNames := sentResp.map (fun r => r.2.1)
+                    let stOnly := sentSt.filter (fun r => !respNames.contains r.2.1)
+                    let stNames := sentSt.map (fun r => r.2.1)
+                    common ++ [respReserved responseOwn,
+                      ("client-sees-status", c == toString code && m == hex msg && d == hex det),
+                      ("client-sees-response-metadata", sameRows ((nonProtocol cr).filter (fun r => respNames.contains r.2.1)) (nonProtocol sentResp)),
+                      ("client-sees-status-metadata", sameRows ((nonProtocol cr).filter (fun r => !respNames.contains r.2.1 && stNames.contains r.2.1)) stOnly)]
+                  | _ => [("observed-parses", false)]
+                | _ => common ++ [("failed-call-fails", false)]
+              else
+                match clientT with
+                | "ok" :: rest =>
+                  match splitOn1 "then" rest with
+                  | some (headT, tailT) =>
+                    match parseRows headT with
+                    | some (hr, []) =>
+                      let tailOk : Bool := match tailT with
+                        | "err" :: c :: m :: d :: rows =>
+                          (match parseRows rows with
+                            | some (cr, []) => code != 0 && c == toString code && m == hex msg && d == hex det && sameRows (nonProtocol cr) sentSt
+                            | _ => false)
+                        | "end" :: _ => code == 0
+                        | _ => false
+                      common ++ [respReserved responseOwn,
+                        ("client-sees-response-metadata", sameRows (nonReserved hr) sentResp),
+                        ("client-sees-stream-status", tailOk)]
+                    | _ => [("observed-parses", false)]
+                  | none => [("observed-parses", false)]
+                | _ => common ++ [("streaming-call-starts", false)]
+            | _, _, _ => [("observed-parses", false)]
+          | none => [("observed-parses", false)]
+        | none => [("observed-parses", false)]
+      | none => [("observed-parses", false)]
+    | none => [("observed-parses", false)]
+  (join model, verdict verdictClauses)
+
+def handle (case obs : List String) : String × String :=
+  let v := Variant.fixed
+  match case with
+  | ["bin", hv] =>
+    match unhex hv with
+    | none => bad
+    | some b =>
+      let w := (valueFromBytes .binary b).getD []
+      let showD : Option Bytes → String := fun | some d => hex d | none => "!"
+      let model := ["w", hex w, showD (valueToBytes .binary w), showD (valueToBytes .binary (B64.encode true b)),
+        if valuesEqual .binary (B64.encode true b) w then "1" else "0"]
+      let vd := match obs with
+        | [_, ow, d1, d2, eq] =>
+          match unhex ow with
+          | some ow =>
+            [("wire-is-base64-of-value", Spec.Metadata.carriesBinary ow b),
+             ("emits-unpadded", !ow.contains 61),
+             ("restored-from-unpadded", d1 == hex b), ("restored-from-padded", d2 == hex b),
+             ("padded-and-unpadded-equal", eq == "1")]
+          | none => [("observed-parses", false)]
+        | _ => [("observed-parses", false)]
+      (join model, verdict vd)
+  | ["binw", hw] =>
+    match unhex hw with
+    | none => bad
+    | some w =>
+      if !HMap.legalValue w then ("not-a-header-value", "ok") else
+      let showD : Option Bytes → String := fun | some d => hex d | none => "!"
+      let model := ["d", showD (valueToBytes .binary w), if valueIsEmpty .binary w then "1" else "0"]
+      let vd := match obs with
+        | [_, d, _] => [("decodes-as-base64-padding-indifferent", d == showD (B64.decode w))]
+        | _ => [("observed-parses", false)]
+      (join model, verdict vd)
+  | ["bineq", ha, hb] =>
+    match unhex ha, unhex hb with
+    | some a, some b =>
+      if !(HMap.legalValue a && HMap.legalValue b) then ("not-a-header-value", "ok") else
+      let model := if valuesEqual .binary a b then "1" else "0"
+      let vd := match B64.decode a, B64.decode b with
+        | some x, some y => [("binary-values-equal-iff-bytes-equal", join obs == (if x == y then "1" else "0"))]
+        | _, _ => []
+      (model, verdict vd)
+    | _, _ => bad
+  | ["ascv", hv] =>
+    match unhex hv with
+    | none => bad
+    | some b =>
+      let model := match valueFromBytes .ascii b with
+        | some w => ["ok", hex w, hex ((valueToBytes .ascii w).getD [])]
+        | none => ["err"]
+      let expected := if HMap.legalValue b then join ["ok", hex b, hex b] else "err"
+      (join model, verdict [("ascii-value-kept-verbatim", join obs == expected)])
+  | ["key", e, hk] =>
+    match encOfTok e, unhex hk with
+    | some enc, some k =>
+      let model := match keyFromBytes v enc k with
+        | some n => ["ok", hex n]
+        | none => ["err"]
+      let expected := match HMap.normName k with
+        | none => "err"
+        | some n => if (enc == Enc.binary) == Spec.Metadata.isBinName n then join ["ok", hex n] else "err"
+      (join model, verdict [("key-category-follows-bin-suffix", join obs == expected)])
+    | _, _ => bad
+  | "acc" :: rest =>
+    match HMap.parse rest with
+    | some (h, [ks]) =>
+      match unhex ks with
+      | some ks => handleAcc h ks obs
+      | none => bad
+    | _ => bad
+  | "iter" :: rest =>
+    match HMap.parse rest with
+    | some (h, []) =>
+      let model := iterOutput (iter v h)
+      let expected := iterOutput (h.map (fun e => (if Spec.Metadata.isBinName e.1 then Enc.binary else Enc.ascii, e.1, e.2)))
+      (join model, verdict [("iterators-present-entries-by-their-bin-suffix", obs == expected)])
+    | _ => bad
+  | "ops" :: n :: rest =>
+    match nat? n with
+    | none => bad
+    | some n =>
+      let rec run : Nat → List String → HMap → List String → Option (HMap × List String)
+        | 0, [], m, acc => some (m, acc.reverse)
+        | 0, _, _, _ => none
+        | k + 1, op :: e :: key :: more, m, acc =>
+          match encOfTok e, unhex key with
+          | some enc, some key =>
+            if op == "rm" then
+              let r := remove v enc key m
+              run k more r.2 (("removed:" ++ optHex r.1) :: acc)
+            else match more with
+              | val :: more' =>
+                match unhex val with
+                | none => none
+                | some val =>
+                  let r := if op == "ins" then insert v enc key val m
+                    else if op == "ent" then entryOrInsert v enc key val m else append v enc key val m
+                  let tok := match r.1 with
+                    | .keyErr => "keyerr"
+                    | .valErr => "valerr"
+                    | .prev p => "prev:" ++ optHex p
+                    | .existed b => "existed:" ++ (if b then "1" else "0")
+                    | .removed p => "removed:" ++ optHex p
+                    | .entry w => "entry:" ++ hex w
+                  run k more' r.2 (tok :: acc)
+              | [] => none
+          | _, _ => none
+        | _ + 1, _, _, _ => none
+      match run n rest [] [] with
+      | none => bad
+      | some (m, toks) =>
+        let model := ("r" :: toks) ++ ("map" :: HMap.render m) ++ ("view" :: renderRows (typedView v m))
+        let vd := match splitOn1 "view" obs with
+          | some (_, vt) =>
+            match parseRows vt with
+            | some (rows, []) =>
+              [("typed-api-stores-each-entry-in-its-category", rows.all (fun r =>
+                  (r.1 == Enc.binary) == Spec.Metadata.isBinName r.2.1 && r.2.2.isSome))]
+            | _ => [("observed-parses", false)]
+          | none => [("observed-parses", false)]
+        (join model, verdict vd)
+  | "hmap" :: n :: rest =>
+    match nat? n with
+    | none => bad
+    | some n =>
+      let rec runH : Nat → List String → HMap → List String → Option (HMap × List String)
+        | 0, [], m, acc => some (m, acc.reverse)
+        | 0, _, _, _ => none
+        | k + 1, "ins" :: key :: val :: more, m, acc =>
+          match unhex key, unhex val with
+          | some key, some val => runH k more (HMap.insert key val m) (("prev:" ++ optHex (HMap.get key m)) :: acc)
+          | _, _ => none
+        | k + 1, "app" :: key :: val :: more, m, acc =>
+          match unhex key, unhex val with
+          | some key, some val => runH k more (HMap.append key val m) (("existed:" ++ (if HMap.hasKey key m then "1" else "0")) :: acc)
+          | _, _ => none
+        | k + 1, "rm" :: key :: more, m, acc =>
+          match unhex key with
+          | some key => runH k more (HMap.remove key m) (("removed:" ++ optHex (HMap.get key m)) :: acc)
+          | none => none
+        | k + 1, "get" :: key :: more, m, acc =>
+          match unhex key with
+          | some key =>
+            let tok := match HMap.normName key with
+              | some nm => "got:" ++ optHex (HMap.get nm m) ++ ":" ++ (if HMap.hasKey nm m then "1" else "0") ++ ":" ++
+                  String.intercalate "," ((HMap.getAll nm m).map hex)
+              | none => "got:none:0:"
+            runH k more m (tok :: acc)
+          | none => none
+        | k + 1, "ext" :: more, m, acc =>
+          match HMap.parse more with
+          | some (o, more') => runH k more' (HMap.extend m o) ("extended" :: acc)
+          | none => none
+        | _ + 1, _, _, _ => none
+      match runH n rest [] [] with
+      | none => bad
+      | some (m, toks) => (join (("r" :: toks) ++ ("map" :: HMap.render m)), "ok")
+  | "e2e" :: mode :: c :: m :: d :: rest =>
+    match nat? c, unhex m, unhex d, parseTyped rest with
+    | some c, some m, some d, some (req, r1) =>
+      match parseTyped r1 with
+      | some (resp, r2) =>
+        match parseTyped r2 with
+        | some (stmd, []) => if c ≤ 16 then handleE2E mode c m d req resp stmd obs else bad
+        | _ => bad
+      | none => bad
+    | _, _, _, _ => bad
+  | _ => bad
+
 end DriverC08
